@@ -12,7 +12,7 @@ from .. import sym
 from ..values import Num, Const, Tup, Term, Val, P, veq, arr_param
 from ..model import AnalysisError, FuncInfo
 from ..symeval import Evaluator
-from .common import show, REPO_RESULT_KIND, SAU, same
+from .common import show, REPO_RESULT_KIND, SAU, same, inline_except, SCANS
 from .c20 import dispatch_fallthrough
 
 LOWER = SAU + 'find_closest_lower_equal_element_indices_to_values'
@@ -361,7 +361,7 @@ def check_dispatcher(ctx):
     x, lk = arr_param('x', length=L), arr_param('lookup', length=Q)
     fill = Term('param', (Const('fill_not_valid'),))
     for lit, target, fwd in (('closest', CLOSEST, False), ('lower', LOWER, True), ('higher', HIGHER, True)):
-        ev = Evaluator(ctx.prog, inline=lambda f: False, opaque_kind=REPO_RESULT_KIND)
+        ev = Evaluator(ctx.prog, inline=inline_except(*SCANS), opaque_kind=REPO_RESULT_KIND)
         res, st = ev.run_function(fi, args={'x': x, 'lookup': lk, 'strategy': Const(lit), 'fill_not_valid': fill})
         calls = [e for e in ev.events if e.kind == 'call']
         ok = len(calls) == 1 and calls[0].data['callee'].qualname == target and same(res, calls[0].data['term'])
